@@ -12,8 +12,11 @@
        caller wait only until the writer has left the slot io_max-1 iterations back, so the report of the stripe
        processed at iteration i is seen at iteration i + d for some 1 <= d <= io_max - 1 (the schedule; parameter
        `lag`), or never when the loop ends first (io_stop follows the loop: sync.c:1395-1397);
-     - single-thread mode (io.c:159-189, 234-258): io_write_preset_mono and io_parity_write_mono clear
-       io->writer_error[] and nothing ever stores the task state: no report is ever seen;
+     - single-thread mode (io.c io_write_preset_mono / io_parity_write_mono / io_write_next_mono, after the repair
+       55c30f5 of F-C08-mono-writer-errors-lost): io_write_preset_mono clears io->writer_error[], io_parity_write_mono runs
+       the writer synchronously and counts its task state, io_write_next_mono reports the counters: the errors of a
+       stripe are seen at that stripe's own io_write_next (before the repair nothing stored the task state and no
+       report was ever seen);
      - the caller (sync.c:1258-1286): if some IOERROR_CONTINUE was reported: ++io_error ONCE (whatever the count),
        bail when the limit is reached; if some ERROR was reported: ++error, bail.
    A failing pwrite leaves the parity block as it was (the file was sized by parity_chsize beforehand).
@@ -43,7 +46,7 @@ Record wrep := mkWR { wr_due : option nat; wr_eio : nat; wr_err : nat }.
 
 Definition eff_lag (n lag : nat) : nat := Nat.max 1 (Nat.min lag (n - 1)).
 Definition report_due (m : iomode) (lag : nat -> nat) (it : nat) : option nat :=
-  match m with Mono => None | Threaded n => Some (it + eff_lag n (lag it)) end.
+  match m with Mono => Some it | Threaded n => Some (it + eff_lag n (lag it)) end.
 Definition is_due (it : nat) (w : wrep) : bool := match wr_due w with Some d => (d <=? it)%nat | None => false end.
 Definition sum_eio (l : list wrep) : nat := fold_right (fun w s => (wr_eio w + s)%nat) 0%nat l.
 Definition sum_err (l : list wrep) : nat := fold_right (fun w s => (wr_err w + s)%nat) 0%nat l.
@@ -82,17 +85,19 @@ Section SyncW.
             let r := sync_stripe hashf bs nlev o now ni c (map (fun lv => nth pos lv PNone) par) fs (faults pos) pos in
             let ne1 := (ne + so_nerr r)%nat in let ns1 := (ns + so_nsilent r)%nat in let ni1 := (ni + so_nio r)%nat in
             if so_bail r then mkWRun (mkRun (so_content r) par ne1 ns1 ni1 true) q nfail else
-            (* io_write_next: first drain the counters the writers have filled so far ... *)
-            let seen := filter (is_due it) q in
-            let q1 := filter (fun w => negb (is_due it w)) q in
-            let ceio := sum_eio seen in let cerr := sum_err seen in
-            (* ... then queue this stripe's blocks; the writers execute them (at the latest when io_stop drains) *)
+            (* the stripe's blocks are handed to the writers (threaded: queued, executed at the latest when io_stop
+               drains; single-thread: written now) and their report is filed for the iteration that will see it ... *)
             let par' := match so_write r with Some v => write_levels par pos v (wf pos) | None => par end in
             let neio := match so_write r with Some _ => count_levels w_is_eio (wf pos) (length par) | None => 0%nat end in
             let nerr := match so_write r with Some _ => count_levels w_is_err (wf pos) (length par) | None => 0%nat end in
             let failed := negb ((neio + nerr =? 0)%nat) in
-            let q2 := if failed then q1 ++ [mkWR (report_due m lag it) neio nerr] else q1 in
+            let qa := if failed then q ++ [mkWR (report_due m lag it) neio nerr] else q in
             let nfail' := if failed then S nfail else nfail in
+            (* ... io_write_next drains the counters filled so far: in threaded mode those of earlier stripes only
+               (a report is due at it + lag >= it + 1), in single-thread mode exactly those of this stripe *)
+            let seen := filter (is_due it) qa in
+            let q2 := filter (fun w => negb (is_due it w)) qa in
+            let ceio := sum_eio seen in let cerr := sum_err seen in
             (* sync.c:1258-1286 *)
             let ni2 := if (0 <? ceio)%nat then S ni1 else ni1 in
             if (0 <? ceio)%nat && (o_io_error_limit o <=? ni2)%nat
